@@ -197,6 +197,9 @@ pub fn load_findings(path: &str) -> Vec<Finding> {
         Ok(t) => t,
         Err(_) => return vec![],
     };
+    if txt.trim().is_empty() {
+        return vec![];
+    }
     let j: J = serde_json::from_str(&txt).expect("known_findings.json must parse");
     let mut out = vec![];
     if let Some(arr) = j.get("findings").and_then(|f| f.as_array()) {
